@@ -71,13 +71,13 @@ package phase3
 // position bookkeeping of the weighted-median orderer (C01): getPos's sanity panic fires exactly when the map and
 // the node disagree
 //@ func wmedianProcessor.getPos
-//@   requires p != nil && n != nil && has(p.positions, n) && p.positions[n] == n.LayerPos
-//@   ensures result == n.LayerPos
+//@   requires[|C01] p != nil && n != nil && has(p.positions, n) && p.positions[n] == n.LayerPos
+//@   ensures[|C01] result == n.LayerPos
 //@ func wmedianProcessor.setPos
-//@   requires p != nil && n != nil
-//@   ensures has(p.positions, n) && p.positions[n] == pos && n.LayerPos == pos
+//@   requires[|C01] p != nil && n != nil
+//@   ensures[|C01] has(p.positions, n) && p.positions[n] == pos && n.LayerPos == pos
 
 // breakEdge puts the helper node into the band below the edge's source: that band has to exist
 //@ func breakEdge
-//@   requires g != nil && e != nil && e.From != nil && e.To != nil
-//@   requires 0 <= e.From.Layer + 1 && e.From.Layer + 1 < len(g.Layers) && g.Layers[e.From.Layer + 1] != nil
+//@   requires[|C01] g != nil && e != nil && e.From != nil && e.To != nil
+//@   requires[|C01] 0 <= e.From.Layer + 1 && e.From.Layer + 1 < len(g.Layers) && g.Layers[e.From.Layer + 1] != nil
